@@ -85,6 +85,13 @@ def _prune(keep=6):
     ents.sort(key=lambda p: os.path.getmtime(p), reverse=True)
     for p in ents[keep:]:
         shutil.rmtree(p, ignore_errors=True)
+    live = set(os.path.basename(p) for p in ents[:keep])
+    for f in os.listdir(CACHE):
+        if f.endswith('.lock') and f[:-5] not in live:
+            try:
+                os.remove(os.path.join(CACHE, f))
+            except OSError:
+                pass
 
 
 def build(std='c++20', extra_flags=(), tu='driver.cpp', repo=None, verbose=False):
